@@ -18,7 +18,7 @@ CONSTANTS Parts,          \* which formats to explore: subset of {"rl", "ah", "a
           RLCounts, RLMaxRuns,
           SmallLen,        \* length bound of the small-alphabet inputs (ah, a85, lzw)
           LzwLens,         \* lengths of the pseudo-random inputs that cross code length switches
-          BREAK            \* "none" | "rl129" | "paeth" | "lzwwidth"
+          BREAK            \* "none" | "rl129" | "paeth" | "lzwwidth" | "lzwclose"
 
 VARIABLES st
 vars == <<st>>
@@ -74,7 +74,8 @@ A85OK == st.part = "a85" =>
           /\ \A v \in A85!Variants : A85!RefIsEncodingOf(A85!EncVariant(st.x, v), st.x)
 LzwBug == IF BREAK = "lzwwidth" THEN 1 ELSE 0
 LzwCheck(x) == \A early \in {0, 1} :
-                 /\ LZ!RefIsEncodingOf(LZ!PackCodes(LZ!ImplCodes(x, early, LzwBug)), early, x)
+                 /\ LZ!RefIsEncodingOf(LZ!PackCodes(IF BREAK = "lzwclose" THEN LZ!ImplCodesNoIncHiAtClose(x, early)
+                                                      ELSE LZ!ImplCodes(x, early, LzwBug)), early, x)
                  /\ (Len(x) <= 250 => LZ!RefIsEncodingOf(LZ!EncLiteralsClear(x, 7), early, x))
                  /\ (Len(x) <= 3000 => LZ!RefIsEncodingOf(LZ!EncLiteralsGrow(x, early), early, x))
 LZWOK == /\ st.part = "lzw" => LzwCheck(st.x)
